@@ -256,6 +256,25 @@ def c03(res, scenario) -> list[Violation]:
             out.append(Violation("c03:flag-after-teardown", "exception flag set after teardown began", case))
         if not any(e[0] == "control" and e[1] == "shutdown_call" for e in res.events):
             out.append(Violation("c03:no-shutdown", "no shutdown issued after a background fault", case))
+        elif flag is not None:
+            # the system stops *because of* the fault, not because somebody happens to send a command
+            # later: once the flag is up, the control loop may finish the tick it is in and must shut
+            # down in the next one - it must not keep ticking (paused or not) with a dead thread
+            ticks = 0
+            for i in range(flag + 1, len(res.events)):
+                th, kind, obj, val = res.events[i]
+                if th != "control":
+                    continue
+                if kind == "shutdown_call":
+                    break
+                if kind == "loop_sleep":
+                    ticks += 1
+                    if ticks >= 3:
+                        out.append(Violation(
+                            "c03:carries-on-with-dead-thread",
+                            f"the control loop completed {ticks} ticks after {th0} had raised its exception "
+                            f"flag (event {flag}) without shutting the system down", case))
+                        break
     return out
 
 
